@@ -69,7 +69,7 @@ type scenario struct {
 	rpc          string // mux/unknown: the rpc name
 	out          string // mux/unary: nil | tnil | ok:<spec> | err:<chain>
 	nrecv        int    // MsgRecv calls made by the client (Invoke: 1)
-	manualFlush  bool   // replay of the ManualFlush finding
+	manualFlush  bool   // ManualFlush client with an unflushed message (regression for fix 56786c9)
 	wantCode     uint64 // code attached by the generator (direct oracle)
 	depth        int    // wrappers above it as seen by drpcerr.Code on the server
 	class        string
@@ -249,7 +249,7 @@ func (h scriptHandler) HandleRPC(stream drpc.Stream, rpc string) error {
 				return err
 			}
 		}
-	case "noread": // manualFlush replay: fail without reading, when told to
+	case "noread": // ManualFlush regression: fail without reading, when told to
 		<-s.release
 	}
 	if sc.shape != "bidi" {
